@@ -292,6 +292,8 @@ pub fn monitor_c12(m: &mut Mon, w: &IncWorld, pre: &Snap, op: &Op, ok: bool, pos
             &format!("flow_cover: the contract holds {} of asset {} but owes {} (outstanding flow funds{})", post.b(SELF_ID, a), a, post.obligations(w, a), if a == cfg.lp { " + staked LP" } else { "" }));
     }
     for f in &post.st.flows { m.check(f.claimed <= f.latest().0, "claims_le_funded: a flow's claimed amount exceeds its funded amount"); }
+    let q = w.flow_queries_disagree(&post.st);
+    m.check(q.is_none(), &format!("flow_queries: {}", q.unwrap_or_default()));
     if !ok { return; }
     match op {
         Op::OpenFlow { asset, .. } => {
